@@ -66,6 +66,12 @@ static int own_monotonic = 0;
  * thread's first read(2); lets a run put the end of the scan after the main thread's first queries */
 static long scan_delay_ms = 0;
 static int scan_delayed = 0;
+/* fault in the scan of the process table (background thread): reads of /proc/<pid>/cmdline
+ * 1: every process reads as an empty command line (zombie / kernel thread / exited between two reads)
+ * 2: every process except delta and its parent      3: only delta's parent
+ * 4: every such read fails with ESRCH (the process exited while it was being read) */
+static int scan_cmdline_mode = 0;
+static long scan_faults = 0;
 static long wfail_at = -1;
 static int wfail_errno = EPIPE;
 static int wfail_sticky = 1;
@@ -149,6 +155,7 @@ static void parse_list(char *s, long *out, int *n) {
 static void on_exit_hook(int status, void *arg) {
     (void)arg;
     if (!active) return;
+    if (scan_cmdline_mode) logf_("SCANFAULT mode=%d fired=%d", scan_cmdline_mode, scan_faults > 0);
     logf_("EXIT code=%d wtot=%ld rtot=%ld", status, w_bytes, r_bytes);
     gate_token("EXIT");
 }
@@ -194,6 +201,7 @@ __attribute__((constructor)) static void shim_init(void) {
         else if (!strcmp(line, "rdelays_ms")) { parse_list(val, rdelays, &n_rdelays); own_monotonic = 1; }
         else if (!strcmp(line, "own_monotonic")) own_monotonic = atoi(val);
         else if (!strcmp(line, "scan_delay_ms")) scan_delay_ms = strtol(val, NULL, 10);
+        else if (!strcmp(line, "scan_cmdline")) scan_cmdline_mode = atoi(val);
         else if (!strcmp(line, "wfail_at")) wfail_at = strtol(val, NULL, 10);
         else if (!strcmp(line, "wfail_errno")) wfail_errno = atoi(val);
         else if (!strcmp(line, "wfail_sticky")) wfail_sticky = atoi(val);
@@ -351,6 +359,28 @@ ssize_t read(int fd, void *buf, size_t count) {
     if (active && !is_main_thread() && scan_delay_ms > 0 && !__atomic_exchange_n(&scan_delayed, 1, __ATOMIC_SEQ_CST)) {
         struct timespec ts = {.tv_sec = scan_delay_ms / 1000, .tv_nsec = (scan_delay_ms % 1000) * 1000000L};
         nanosleep(&ts, NULL);
+    }
+    if (active && scan_cmdline_mode && !is_main_thread()) {
+        char lnk[64], path[128];
+        snprintf(lnk, sizeof lnk, "/proc/self/fd/%d", fd);
+        ssize_t n = readlink(lnk, path, sizeof path - 1);
+        if (n > 6) {
+            path[n] = 0;
+            char *end = NULL;
+            long pid = strncmp(path, "/proc/", 6) == 0 ? strtol(path + 6, &end, 10) : 0;
+            if (pid > 0 && end && strcmp(end, "/cmdline") == 0) {
+                int own = pid == getpid() || pid == getppid();
+                int hit = scan_cmdline_mode == 1 || scan_cmdline_mode == 4 || (scan_cmdline_mode == 2 && !own) || (scan_cmdline_mode == 3 && pid == getppid());
+                if (hit) {
+                    __atomic_add_fetch(&scan_faults, 1, __ATOMIC_SEQ_CST);
+                    if (scan_cmdline_mode == 4) {
+                        errno = ESRCH;
+                        return -1;
+                    }
+                    return 0;
+                }
+            }
+        }
     }
     if (!active || !is_main_thread()) return real_read(fd, buf, count);
     if (fd != 0) {
